@@ -263,3 +263,16 @@ func AsRTUErrorPacket(data []byte) error {
 	}
 	return nil // probably start of valid packet
 }
+
+// AsRTUErrorPacketWithCRC converts raw packet bytes to Modbus RTU error response if possible and only when the CRC
+// of the packet matches its content. Clients use it on partially received data, before the CRC checking parser is
+// reached, so that a corrupted frame is never reported as a device exception.
+func AsRTUErrorPacketWithCRC(data []byte) error {
+	if len(data) != 5 {
+		return nil
+	}
+	if binary.LittleEndian.Uint16(data[3:5]) != CRC16(data[0:3]) {
+		return nil
+	}
+	return AsRTUErrorPacket(data)
+}
